@@ -84,4 +84,5 @@ class Router:
                         client.message_from_device(message)
 
     def process_enable_blob(self, message: EnableBLOB, sender: SenderType):
-        self.blob_routing[sender][message.device] = message.value
+        if sender in self.blob_routing:
+            self.blob_routing[sender][message.device] = message.value
